@@ -473,6 +473,11 @@ class Doist(tyming.Tymist):
         if deeds is None:
             deeds = self.deeds
 
+        marker = (None, None, None)  # run through once marker of .recur
+        if marker in deeds:  # interrupted in mid recur so deeds is rotated
+            # rotate marker to right end so deeds are in enter order again
+            deeds.rotate(-(deeds.index(marker) + 1))
+
         while(deeds):  # .close each remaining dog in deeds in reverse order
             dog, retime, doer = deeds.pop()  # pop it off in reverse (right side)
             if not dog:  # marker deed
@@ -522,6 +527,7 @@ class Doist(tyming.Tymist):
             dog, retyme, doer = deeds.popleft()
             if not dog:  # reappend the run through once marker deed
                 deeds.append((dog, retyme, doer))
+                rdeeds.append((dog, retyme, doer))  # so exit closes in reverse enter order
             elif doer in rdoers:  # found deed to remove and close
                 rdeeds.append((dog, retyme, doer))  # add to removal deque
             else:  # keep deed do not remove and close
@@ -1348,6 +1354,11 @@ class DoDoer(Doer):
         if deeds is None:
             deeds = self.deeds
 
+        marker = (None, None, None)  # run through once marker of .recur
+        if marker in deeds:  # interrupted in mid recur so deeds is rotated
+            # rotate marker to right end so deeds are in enter order again
+            deeds.rotate(-(deeds.index(marker) + 1))
+
         while(deeds):  # .close each remaining dog in deeds in reverse order
             dog, retime, doer = deeds.pop()  # pop it off in reverse (right side)
             if not dog:  # marker deed
@@ -1397,6 +1408,7 @@ class DoDoer(Doer):
             dog, retyme, doer = deeds.popleft()
             if not dog:  # reappend the run through once marker deed
                 deeds.append((dog, retyme, doer))
+                rdeeds.append((dog, retyme, doer))  # so exit closes in reverse enter order
             elif doer in rdoers:  # found deed to remove and close
                 rdeeds.append((dog, retyme, doer))  # add to removal deque
             else:  # keep deed do not remove and close
